@@ -444,7 +444,6 @@ Proof.
   rewrite <- etag_match_spec.
   destruct (etag_match etag header) as [[|]|]; split; intro H;
     try reflexivity; try discriminate; try congruence.
-  exfalso. apply H. reflexivity.
 Qed.
 
 Lemma matches_dec : forall etag header, matches etag header \/ ~ matches etag header.
@@ -459,7 +458,7 @@ Qed.
 (* the non-existent object (empty tag) is matched by nothing, not even "*" *)
 Lemma matches_absent : forall header, ~ matches [] header.
 Proof.
-  intros header [Hne [H|[H|[H _]]]]; try congruence.
+  intros header [Hne [H|[H|[H _]]]]; [congruence | | exact (H eq_refl)].
   remember (Tag []) as i eqn:Ei. revert Ei.
   induction H as [| seps t rest Hs Ht | seps t rest i Hs Ht Ho IH]; intro Ei.
   - discriminate.
